@@ -46,7 +46,7 @@ def one(d):
         shutil.rmtree(ev, ignore_errors=True)
 
 
-root = V / ("seeded_benign" if mode == "benign" else "seeded")
+root = Path(os.environ["PAR_ROOT"]) if os.environ.get("PAR_ROOT") else V / ("seeded_benign" if mode == "benign" else "seeded")
 dirs = [d for d in sorted(root.iterdir()) if (d / "patch.diff").exists() and (not only or d.name in only)]
 with ThreadPoolExecutor(max_workers=16) as ex:
     results = list(ex.map(one, dirs))
